@@ -6,6 +6,7 @@ import (
 	"errors"
 	"fmt"
 	"math/bits"
+	"path/filepath"
 	"strings"
 )
 
@@ -72,7 +73,17 @@ func OpenFile(f string) (*Database, error) {
 	if err != nil {
 		return nil, err
 	}
-	return newDatabase(l, f+"-journal")
+	// The rollback journal is next to the database file itself, not next to a
+	// symbolic link to it, and does not move when the process changes its
+	// working directory. SQLite resolves the name the same way.
+	journal := f
+	if p, err := filepath.EvalSymlinks(journal); err == nil {
+		journal = p
+	}
+	if p, err := filepath.Abs(journal); err == nil {
+		journal = p
+	}
+	return newDatabase(l, journal+"-journal")
 }
 
 func newDatabase(l pager, journal string) (*Database, error) {
